@@ -546,6 +546,23 @@ impl Value {
     }
 }
 
+#[cfg(gluon_verif)]
+impl ValueRepr {
+    pub(crate) fn verif_owner(&self) -> Option<u32> {
+        match self {
+            ValueRepr::String(p) => Some(p.verif_owner()),
+            ValueRepr::Data(p) => Some(p.verif_owner()),
+            ValueRepr::Array(p) => Some(p.verif_owner()),
+            ValueRepr::Function(p) => Some(p.verif_owner()),
+            ValueRepr::Closure(p) => Some(p.verif_owner()),
+            ValueRepr::PartialApplication(p) => Some(p.verif_owner()),
+            ValueRepr::Userdata(p) => Some(p.verif_owner()),
+            ValueRepr::Thread(p) => Some(p.verif_owner()),
+            _ => None,
+        }
+    }
+}
+
 impl ValueRepr {
     pub fn get_variants(&self) -> Variants<'_> {
         Variants::new(Value::from_ref(self))
@@ -1784,6 +1801,197 @@ impl<'t> Cloner<'t> {
             }
         }
     }
+}
+
+/// Canonical encoding of the object graph below `value` (verification hook).
+///
+/// Heap objects are numbered by first visit in a depth first walk, a second visit emits a back
+/// reference: two values have the same encoding iff they are isomorphic including sharing and
+/// cycles. Closures, partial applications and the contents of `Reference`/`Lazy` userdata are
+/// followed (the public `ValueRef` api cannot see inside those).
+#[cfg(gluon_verif)]
+pub(crate) fn verif_encode_graph(value: &ValueRepr) -> crate::real_std::string::String {
+    use std::fmt::Write;
+
+    struct Encoder {
+        seen: FnvMap<*const (), usize>,
+        out: crate::real_std::string::String,
+    }
+
+    impl Encoder {
+        /// Returns true if the object was seen before (a back reference was emitted)
+        fn object<T: ?Sized>(&mut self, kind: char, ptr: &GcPtr<T>) -> bool {
+            let key = &**ptr as *const T as *const ();
+            let next = self.seen.len();
+            match self.seen.entry(key) {
+                Entry::Occupied(entry) => {
+                    let _ = write!(self.out, "@{}", entry.get());
+                    true
+                }
+                Entry::Vacant(entry) => {
+                    entry.insert(next);
+                    let _ = write!(self.out, "{}{}", kind, next);
+                    false
+                }
+            }
+        }
+
+        fn closure(&mut self, closure: &GcPtr<ClosureData>) {
+            if !self.object('c', closure) {
+                let _ = write!(self.out, "<{}", closure.function.name.declared_name());
+                for upvar in closure.upvars.iter() {
+                    self.out.push(' ');
+                    self.value(upvar.get_repr());
+                }
+                self.out.push('>');
+            }
+        }
+
+        fn string(&mut self, s: &GcStr) {
+            if !self.object('s', s) {
+                let _ = write!(self.out, "{:?}", &s[..]);
+            }
+        }
+
+        fn userdata(&mut self, data: &GcPtr<Box<dyn Userdata>>) {
+            if !self.object('u', data) {
+                if let Some(r) = data.downcast_ref::<crate::reference::Reference<crate::api::generic::A>>() {
+                    self.out.push_str("<ref ");
+                    unsafe {
+                        let inner = r.verif_value();
+                        self.value(inner.get_repr());
+                    }
+                    self.out.push('>');
+                } else if let Some(l) = data.downcast_ref::<crate::lazy::Lazy<crate::api::generic::A>>() {
+                    match unsafe { l.verif_value() } {
+                        Ok(Some(inner)) => {
+                            self.out.push_str("<lazy value ");
+                            self.value(inner.get_repr());
+                            self.out.push('>');
+                        }
+                        Ok(None) => self.out.push_str("<lazy blackhole>"),
+                        Err(inner) => {
+                            self.out.push_str("<lazy thunk ");
+                            self.value(inner.get_repr());
+                            self.out.push('>');
+                        }
+                    }
+                } else {
+                    self.out.push_str("<opaque>");
+                }
+            }
+        }
+
+        fn array(&mut self, array: &GcPtr<ValueArray>) {
+            if self.object('a', array) {
+                return;
+            }
+            let _ = write!(self.out, "[{:?}:", array.repr());
+            unsafe {
+                match array.repr() {
+                    Repr::Byte => {
+                        let _ = write!(self.out, "{:?}", array.unsafe_array::<u8>());
+                    }
+                    Repr::Int => {
+                        let _ = write!(self.out, "{:?}", array.unsafe_array::<VmInt>());
+                    }
+                    Repr::Float => {
+                        for f in array.unsafe_array::<f64>() {
+                            let _ = write!(self.out, "{:x},", f.to_bits());
+                        }
+                    }
+                    Repr::String => {
+                        for s in array.unsafe_array::<GcStr>() {
+                            self.string(s);
+                            self.out.push(',');
+                        }
+                    }
+                    Repr::Array => {
+                        for a in array.unsafe_array::<GcPtr<ValueArray>>() {
+                            self.array(a);
+                            self.out.push(',');
+                        }
+                    }
+                    Repr::Unknown => {
+                        for v in array.unsafe_array::<Value>() {
+                            self.value(v.get_repr());
+                            self.out.push(',');
+                        }
+                    }
+                    Repr::Userdata => {
+                        for u in array.unsafe_array::<GcPtr<Box<dyn Userdata>>>() {
+                            self.userdata(u);
+                            self.out.push(',');
+                        }
+                    }
+                    Repr::Thread => self.out.push_str("threads"),
+                }
+            }
+            self.out.push(']');
+        }
+
+        fn value(&mut self, value: &ValueRepr) {
+            match value {
+                ValueRepr::Byte(b) => {
+                    let _ = write!(self.out, "{}b", b);
+                }
+                ValueRepr::Int(i) => {
+                    let _ = write!(self.out, "{}", i);
+                }
+                ValueRepr::Float(f) => {
+                    let _ = write!(self.out, "f{:x}", f.to_bits());
+                }
+                ValueRepr::Tag(t) => {
+                    let _ = write!(self.out, "t{}", t);
+                }
+                ValueRepr::String(s) => self.string(s),
+                ValueRepr::Data(data) => {
+                    if !self.object('d', data) {
+                        let _ = write!(self.out, "({}", data.tag);
+                        if data.is_record() {
+                            self.out.push('r');
+                        }
+                        for field in data.fields.iter() {
+                            self.out.push(' ');
+                            self.value(field.get_repr());
+                        }
+                        self.out.push(')');
+                    }
+                }
+                ValueRepr::Array(array) => self.array(array),
+                ValueRepr::Function(function) => {
+                    // extern functions are stateless, identity does not matter
+                    let _ = write!(self.out, "x<{}>", function.id.declared_name());
+                }
+                ValueRepr::Closure(closure) => self.closure(closure),
+                ValueRepr::PartialApplication(app) => {
+                    if !self.object('p', app) {
+                        self.out.push('<');
+                        match &app.function {
+                            Callable::Closure(closure) => self.closure(closure),
+                            Callable::Extern(function) => {
+                                let _ = write!(self.out, "x<{}>", function.id.declared_name());
+                            }
+                        }
+                        for arg in app.args.iter() {
+                            self.out.push(' ');
+                            self.value(arg.get_repr());
+                        }
+                        self.out.push('>');
+                    }
+                }
+                ValueRepr::Userdata(data) => self.userdata(data),
+                ValueRepr::Thread(_) => self.out.push_str("thread"),
+            }
+        }
+    }
+
+    let mut encoder = Encoder {
+        seen: FnvMap::default(),
+        out: crate::real_std::string::String::new(),
+    };
+    encoder.value(value);
+    encoder.out
 }
 
 #[cfg(test)]
